@@ -89,6 +89,13 @@ pub type Jobs = Vec<(Arc<Scenario>, RunSpec, usize)>;
 /// The schedule-search job list shared by C06 / C07 / C10 / C18: (part name, jobs).
 /// `tf` transforms every scenario (e.g. adds --fsync).
 pub fn schedule_jobs(quick: bool, tf: &dyn Fn(Scenario) -> Scenario) -> Vec<(String, Jobs)> {
+    schedule_jobs_level(if quick { 0 } else { 2 }, tf)
+}
+
+/// level 0 = quick, 1 = thorough for the properties that re-judge the shared search (C07, C10), 2 = the deepest (C06, C18)
+pub fn schedule_jobs_level(level: u8, tf: &dyn Fn(Scenario) -> Scenario) -> Vec<(String, Jobs)> {
+    let quick = level == 0;
+    let deep = level >= 2;
     let mut parts: Vec<(String, Jobs)> = vec![];
     let mut extra_parts: Vec<(String, Jobs)> = vec![];
     let nocfr = |spec: &mut RunSpec| {
@@ -103,10 +110,10 @@ pub fn schedule_jobs(quick: bool, tf: &dyn Fn(Scenario) -> Scenario) -> Vec<(Str
             let s = Arc::new(s);
             for mut b in super::base_specs() {
                 nocfr(&mut b);
-                j.push((s.clone(), b, if quick { 1 } else { 2 }));
+                j.push((s.clone(), b, if deep && s.name.starts_with("S2-parblock-w2") { 2 } else { 1 }));
             }
         }
-        extra_parts.push((format!("copy_file_range absent (user-space fallback) d<={}", if quick { 1 } else { 2 }), j));
+        extra_parts.push((format!("copy_file_range absent (user-space fallback) d<={}", if deep { 2 } else { 1 }), j));
     }
     let mut add = |name: &str, scens: Vec<Scenario>, d: usize| {
         let mut j = vec![];
@@ -130,9 +137,9 @@ pub fn schedule_jobs(quick: bool, tf: &dyn Fn(Scenario) -> Scenario) -> Vec<(Str
         add("S2 parblock B=4 w2, -vv (log statements as pre-emption points)", vec![vv(s2(2, 4))], 1);
         add("S1 parfile w2, -vv", vec![vv(s1(2))], 1);
     } else {
-        add("S2 parblock B=4 w{2,3}, -vv (log statements as pre-emption points)", vec![vv(s2(2, 4)), vv(s2(3, 4))], 2);
-        add("S1 parfile w2, -vv", vec![vv(s1(2))], 2);
-        add("S3 -vv", vec![vv(s3("parblock", 2))], 1);
+        add("S2 parblock B=4 w2, -vv (log statements as pre-emption points)", vec![vv(s2(2, 4))], if deep { 2 } else { 1 });
+        add("S2 parblock B=4 w3, S1 parfile w2, S3: -vv", vec![vv(s2(3, 4)), vv(s1(2)), vv(s3("parblock", 2))], 1);
+        add("tiny -vv", vec![vv(tiny("parblock"))], 2);
     }
     if quick {
         add("S1 parfile w{1,2,3}", vec![s1(1), s1(2), s1(3)], 1);
@@ -145,14 +152,17 @@ pub fn schedule_jobs(quick: bool, tf: &dyn Fn(Scenario) -> Scenario) -> Vec<(Str
         add("S4 w64 both drivers", vec![s1(64), s2(64, 4)], 0);
         add("tiny parblock", vec![tiny("parblock")], 2);
     } else {
-        add("S1 parfile w{1,2,3}", vec![s1(1), s1(2), s1(3)], 2);
-        add("S2 parblock B=4 w{1,2,3}", vec![s2(1, 4), s2(2, 4), s2(3, 4)], 2);
+        add("S1 parfile w2", vec![s1(2)], 2);
+        add("S1 parfile w{1,3}", vec![s1(1), s1(3)], if deep { 2 } else { 1 });
+        add("S2 parblock B=4 w2", vec![s2(2, 4)], 2);
+        add("S2 parblock B=4 w{1,3}", vec![s2(1, 4), s2(3, 4)], if deep { 2 } else { 1 });
         add("S2' parblock B=16 w{1,2}", vec![s2(1, 16), s2(2, 16)], 2);
-        add("S3 fsync+backup onto populated dst, both drivers w2", vec![s3("parblock", 2), s3("parfile", 2)], 2);
-        add("S1 under parblock (driver agreement) w2", vec![s1_driver("parblock", 2)], 2);
+        add("S3 fsync+backup onto populated dst, parblock w2", vec![s3("parblock", 2)], 2);
+        add("S3 fsync+backup onto populated dst, parfile w2", vec![s3("parfile", 2)], if deep { 2 } else { 1 });
+        add("S1 under parblock (driver agreement) w2", vec![s1_driver("parblock", 2)], if deep { 2 } else { 1 });
         add("S4 w{8,64} both drivers", vec![s1(8), s2(8, 4), s1(64), s2(64, 4)], 1);
-        add("S5 sparse + dense, both drivers w{2,3}", vec![s5("parblock", 2), s5("parfile", 2), s5("parblock", 3)], 2);
-        add("tiny both drivers", vec![tiny("parblock"), tiny("parfile")], 3);
+        add("S5 sparse + dense, both drivers w2", vec![s5("parblock", 2), s5("parfile", 2)], if deep { 2 } else { 1 });
+        add("tiny both drivers", vec![tiny("parblock"), tiny("parfile")], if deep { 3 } else { 2 });
     }
     drop(add);
     parts.extend(extra_parts);
